@@ -9,7 +9,7 @@ ID = 'C04'
 LEVEL = 'exploration'
 BUDGET = {'quick': 150, 'thorough': 1800}
 CHUNK = 4
-RULE = ('Cases: a reference (1..4 contigs; a few per run of 80..600 kb in two contigs with samples carrying SNPs and ambiguity codes along the whole length; contigs of length k-2/k/k+1; contigs without any window before, between and '
+RULE = ('Cases: a reference (1..4 contigs; a few per run of 80..600 kb in two contigs with samples carrying SNPs and ambiguity codes along the whole length; tracts in which one split k-mer occurs 100..513 times (among them exactly 255, 256, 257) mapped against themselves with --repeat-mask; three per run mapped by 257..260 samples with sites where exactly 255/256/257 of them differ from the reference; contigs of length k-2/k/k+1; contigs without any window before, between and '
         'after contigs with repeats; N runs; lower-case stretches; repeats within and across contigs in both orientations) '
         'and 1..3 (sometimes 9..24) samples, mapped with --threads 1..4 (mutated copies with SNPs/indels, dropped/reordered/reverse-complemented contigs, duplicated '
         'content giving ambiguity codes; or an arbitrary subset of reference windows with present/absent runs of every '
@@ -21,7 +21,7 @@ ASSUMPTIONS = ['the sample dictionary is taken from the real .skf (nk --full-inf
                'position-wise definition as in DESIGN.md section 6 C04']
 KINDS = ['random', 'shortcontig', 'pattern', 'selfmap', 'lower', 'palin']
 REQUIRED = {t: ['kind:' + x for x in KINDS] + ['flags:am', 'flags:rm', 'flags:am+rm', 'flags:none', 'repeat_masked_positions',
-                                                'selfmap_exact', 'lowercase_ref_positions', 'ref_contig_without_kmers_before_repeat', 'files_with_9+_samples', 'route:fasta_inputs', 'references_of_80kb+']
+                                                'selfmap_exact', 'lowercase_ref_positions', 'ref_contig_without_kmers_before_repeat', 'files_with_9+_samples', 'route:fasta_inputs', 'references_of_80kb+', 'kind:crowd', 'kind:tract', 'files_with_a_repeated_sample_name']
             for t in ('quick', 'thorough')}
 FORCED_K = [5, 7, 9, 11, 15, 21, 31, 33, 41, 63]
 
@@ -51,8 +51,13 @@ def plan(tier, seed, rng, scale):
     for i, hz in enumerate([80000, 300000] if tier == 'quick' else [80000, 300000, 140000, 300000, 600000, 80000]):
         descs.insert(25 + 13 * i, {'k': rng.choice([21, 31, 33]), 'rc': rng.random() < 0.7, 'kind': 'random', 'am': i % 2 == 0, 'rm': False,
                                    'seed': rng.getrandbits(32), 'huge': hz})
+    for i in range(8 if tier == 'quick' else 40):
+        descs.insert(33 + 5 * i, {'k': rng.choice([9, 15, 21, 31, 33]), 'rc': rng.random() < 0.7, 'kind': 'tract', 'am': rng.random() < 0.3, 'rm': i % 4 != 3,
+                                  'seed': rng.getrandbits(32)})
+    for i in range(3 if tier == 'quick' else 12):
+        descs.insert(30 + 7 * i, {'k': rng.choice([15, 21, 31, 33]), 'rc': rng.random() < 0.7, 'kind': 'crowd', 'am': False, 'rm': False, 'seed': rng.getrandbits(32)})
     for i, d in enumerate(descs):
-        d['chk'] = (i % 6 == 0) and not d.get('huge')
+        d['chk'] = (i % 6 == 0) and not d.get('huge') and d['kind'] != 'crowd'
     return descs
 
 
@@ -80,6 +85,15 @@ def mutate(rng, s, nmut):
 def gen_ref(rng, k, kind, big=False, huge=None):
     h = (k - 1) // 2
     contigs = []
+    if kind == 'crowd':
+        return [G.rseq(rng, rng.randint(5 * k, 8 * k)), G.rseq(rng, rng.randint(3 * k, 5 * k))]
+    if kind == 'tract':
+        # a homopolymer / tandem tract in which one split k-mer occurs 255, 256, 257 (or some other number of) times
+        unit = rng.choice(['A', 'A', 'T', 'C', 'AC', 'AG'])
+        copies = rng.choice([255, 256, 257, 256, 100, 300, 513])
+        L = k + (copies - 1) * len(unit)
+        return [G.rseq(rng, rng.randint(k, 3 * k)) + (unit * (L // len(unit) + 1))[:L] + G.rseq(rng, rng.randint(k, 3 * k))] + \
+            ([G.rseq(rng, 3 * k)] if rng.random() < 0.5 else [])
     if huge:
         # tens to hundreds of kilobases: more matched k-mers, columns and records than any block or buffer of the writers
         n1 = rng.randint(huge // 3, 2 * huge // 3)
@@ -155,6 +169,22 @@ def gen_ref(rng, k, kind, big=False, huge=None):
 def gen_samples(rng, ref, k, kind, rcmode, huge=None):
     h = (k - 1) // 2
     samples = []
+    if kind == 'crowd':
+        # hundreds of samples: sites at which exactly 255 / 256 / 257 / n-1 samples differ from the reference
+        ns_ = rng.choice([257, 258, 260])
+        flat = [list(c) for c in ref]
+        per = [[list(c) for c in ref] for _ in range(ns_)]
+        sites = []
+        for ci, c in enumerate(ref):
+            p_ = k + rng.randint(0, 5)
+            while p_ < len(c) - k:
+                sites.append((ci, p_))
+                p_ += k + 2 + rng.randint(0, k)
+        for (ci, p_), want in zip(sites, [256, 255, 257, ns_ - 1, 256, 1, 2] * 3):
+            alt = {'A': 'C', 'C': 'G', 'G': 'T', 'T': 'A'}[ref[ci][p_].upper()]
+            for si in rng.sample(range(ns_), min(want, ns_)):
+                per[si][ci][p_] = alt
+        return [[''.join(c) if not (rcmode and rng.random() < 0.3) else M.rc(''.join(c)) for c in smp] for smp in per]
     if huge:
         for si in range(2):
             recs = []
@@ -178,7 +208,7 @@ def gen_samples(rng, ref, k, kind, rcmode, huge=None):
                     recs.append(''.join(t2))
             samples.append(recs)
         return samples
-    if kind == 'selfmap':
+    if kind in ('selfmap', 'tract'):
         return [[c for c in ref]]
     if kind == 'pattern':
         for _ in range(rng.randint(1, 3)):
@@ -302,15 +332,29 @@ def setup(desc, ctx, res, binary):
     if desc['seed'] % 3 == 1:
         names = random.Random(desc['seed'] ^ 0xc0).sample(CPOOL, len(ref))
         res.count('unusual_contig_names')
+    elif desc['seed'] % 12 == 2 and len(ref) >= 2:
+        # two contigs of the same name (concatenated assemblies): records keep the name their contig has in the input
+        names[1] = names[0]
+        res.count('duplicate_contig_names')
     with open(ctx.path('ref.fa'), 'w') as f:
         for i, c in enumerate(ref):
             f.write('>%s some description\n%s\n' % (names[i], c))
     files = [G.write_fa(ctx.path('s%d.fa' % i), recs) for i, recs in enumerate(samples)]
-    p = G.ska_build(ctx, ctx.path('o'), files, k, rcmode, binary=binary)
+    snames = ['s%d' % i for i in range(len(samples))]
+    if len(samples) >= 2 and desc['seed'] % 11 == 5 and not desc.get('fasta_route') and not desc.get('unique_sample_names'):
+        # two samples of the same name (the same isolate from two runs): both are samples of the file and both get their row
+        r4 = random.Random(desc['seed'] ^ 0x5a)
+        i_, j_ = sorted(r4.sample(range(len(samples)), 2))
+        snames[j_] = snames[i_]
+        lst = ctx.write('samples.list', ''.join('%s\t%s\n' % (snames[x], files[x]) for x in range(len(samples))))
+        p = G.ska_build(ctx, ctx.path('o'), ['-f', lst], k, rcmode, binary=binary)
+        res.count('files_with_a_repeated_sample_name')
+    else:
+        p = G.ska_build(ctx, ctx.path('o'), files, k, rcmode, binary=binary)
     if p.returncode != 0:
         return None
     hdr, table = G.nk(ctx, ctx.path('o.skf'), binary=binary)
-    return {'ref': ref, 'samples': samples, 'table': table, 'names': ['s%d' % i for i in range(len(samples))],
+    return {'ref': ref, 'samples': samples, 'table': table, 'names': snames,
             'contig_names': names, 'files': files}
 
 
